@@ -254,7 +254,11 @@ impl<'a> UserModel<'a> {
                         if let Some(row_style) = row_data.row.clone() {
                             worksheet.rows.push(row_style);
                         }
-                        worksheet.sheet_data.insert(r, row_data.data.clone());
+                        // (a row without cells has no entry in the sheet data: an empty one
+                        // would count as used and block later insertions near the last row)
+                        if !row_data.data.is_empty() {
+                            worksheet.sheet_data.insert(r, row_data.data.clone());
+                        }
                     }
                 }
                 Diff::InsertColumns {
